@@ -1014,7 +1014,10 @@ class AQUA:
             return qInt.to_array()
         a = acc/a_norm
         gx, gy, gz = qInt.to_DCM().T @ a                    # Predicted gravity (eq. 44)
-        q_acc = np.array([np.sqrt((gz+1.0)/2.0), -gy/np.sqrt(2.0*(gz+1.0)), gx/np.sqrt(2.0*(gz+1.0)), 0.0])     # Delta Quaternion (eq. 47)
+        if gz+1.0 > 0:
+            q_acc = np.array([np.sqrt((gz+1.0)/2.0), -gy/np.sqrt(2.0*(gz+1.0)), gx/np.sqrt(2.0*(gz+1.0)), 0.0])     # Delta Quaternion (eq. 47)
+        else:
+            q_acc = np.array([0.0, 1.0, 0.0, 0.0])          # eq. 47 is singular when the predicted gravity is exactly opposite: any horizontal half-turn aligns it
         if self.adaptive:
             self.alpha = adaptive_gain(acc)
         q_acc = slerp_I(q_acc, self.alpha, self.threshold)
@@ -1069,7 +1072,10 @@ class AQUA:
         a = acc/a_norm
         gx, gy, gz = qInt.to_DCM().T @ a                    # Predicted gravity (eq. 44)
         # Accelerometer-Based Quaternion
-        q_acc = np.array([np.sqrt((gz+1.0)/2.0), -gy/np.sqrt(2.0*(gz+1.0)), gx/np.sqrt(2.0*(gz+1.0)), 0.0])     # Delta Quaternion (eq. 47)
+        if gz+1.0 > 0:
+            q_acc = np.array([np.sqrt((gz+1.0)/2.0), -gy/np.sqrt(2.0*(gz+1.0)), gx/np.sqrt(2.0*(gz+1.0)), 0.0])     # Delta Quaternion (eq. 47)
+        else:
+            q_acc = np.array([0.0, 1.0, 0.0, 0.0])          # eq. 47 is singular when the predicted gravity is exactly opposite: any horizontal half-turn aligns it
         if self.adaptive:
             self.alpha = adaptive_gain(acc)
         q_acc = slerp_I(q_acc, self.alpha, self.threshold)
@@ -1080,7 +1086,12 @@ class AQUA:
             return q_prime.to_array()
         lx, ly, _ = q_prime.to_DCM().T @ (mag/m_norm)       # World frame magnetic vector (eq. 54)
         Gamma = lx**2 + ly**2                               # (eq. 28)
-        q_mag = np.array([np.sqrt(Gamma+lx*np.sqrt(Gamma))/np.sqrt(2*Gamma), 0.0, 0.0, ly/np.sqrt(2*(Gamma+lx*np.sqrt(Gamma)))])    # (eq. 58)
+        if Gamma+lx*np.sqrt(Gamma) > 0:
+            q_mag = np.array([np.sqrt(Gamma+lx*np.sqrt(Gamma))/np.sqrt(2*Gamma), 0.0, 0.0, ly/np.sqrt(2*(Gamma+lx*np.sqrt(Gamma)))])    # (eq. 58)
+        elif Gamma > 0:
+            q_mag = np.array([0.0, 0.0, 0.0, 1.0])          # eq. 58 is singular when the heading is exactly opposite: half-turn about the vertical
+        else:
+            q_mag = np.array([1.0, 0.0, 0.0, 0.0])          # Vertical magnetic field: no heading information
         q_mag = slerp_I(q_mag, self.beta, self.threshold)
         # Generalized Quaternion
         q = q_prime.product(q_mag)                          # (eq. 59)
